@@ -199,11 +199,13 @@ pub struct TimerOpts {
     pub same_time_bias: bool,
     /// Directed same-deadline same-origin bursts with cancellations by position.
     pub bursts: bool,
+    /// Minimal self-rescheduling chains under `step_until` (nothing else pending).
+    pub chains: bool,
 }
 
 impl Default for TimerOpts {
     fn default() -> Self {
-        TimerOpts { max_nodes: 3, max_cmds: 20, periodic: true, cancel: true, max_inv: 600, lattice: vec![1, 2, 3, 1000, 2000, 500_000_000, 1_000_000_000], same_time_bias: true, bursts: true }
+        TimerOpts { max_nodes: 3, max_cmds: 20, periodic: true, cancel: true, max_inv: 600, lattice: vec![1, 2, 3, 1000, 2000, 500_000_000, 1_000_000_000], same_time_bias: true, bursts: true, chains: true }
     }
 }
 
@@ -218,8 +220,53 @@ pub fn gen_timer(seed: u64, o: &TimerOpts) -> Spec {
     }
 }
 
+/// Minimal self-rescheduling chains driven by `step_until` with nothing else
+/// pending: the only queued action is the next link of a chain that a handler
+/// schedules while the step is running (so the queue is empty each time a step
+/// has pulled its actions). Several chains may run on different nodes with
+/// different delays; the horizon is cut into `step_until` calls whose targets
+/// fall before, on and after the links.
+fn gen_chain(seed: u64, o: &TimerOpts) -> Spec {
+    let mut rng = Rng::new(seed);
+    let n = rng.range(1, 2.min(o.max_nodes as u64)) as usize;
+    let mut spec = Spec { seed, ttl: rng.range(4, 6) as u8, start: rng.below(2) * 1_000_000_000, drv_slots: 1, ..Default::default() };
+    spec.sinks.push(SinkSpec::Buffer(4096));
+    let d = *rng.pick(&o.lattice) * rng.range(1, 3);
+    for i in 0..n {
+        let mut ns = NodeSpec { name: format!("c{}", i), cap: rng.range(1, 4) as usize, added: true, key_slots: 1, ..Default::default() };
+        ns.outs.push(vec![Conn { target: Target::Sink(0), map: MapKind::Plain }]);
+        for _k in 0..2 {
+            ns.react.push(Vec::new());
+        }
+        let di = d * (i as u64 + 1);
+        // Self kind 2: log to the sink and schedule the next link.
+        ns.react.push(vec![Action::Send { port: 0, kind: 0 }, Action::Sched { delay: di, abs: None, kind: 2, slot: None, period: None, auto: false }]);
+        ns.react.push(Vec::new());
+        for _ in 0..KINDS {
+            ns.qreact.push(Vec::new());
+        }
+        if i == 0 || rng.chance(1, 2) {
+            ns.init = vec![Action::Sched { delay: di, abs: None, kind: 2, slot: None, period: None, auto: false }];
+        }
+        spec.nodes.push(ns);
+    }
+    spec.sources.push(vec![Conn { target: Target::Node(0), map: MapKind::Plain }]);
+    for _ in 0..rng.range(1, 4) {
+        spec.cmds.push(match rng.below(4) {
+            0 => Cmd::Step,
+            _ => Cmd::StepUntil { delta: d * rng.range(1, 7) + rng.below(2) },
+        });
+    }
+    spec.cmds.push(Cmd::Step);
+    spec.cmds.push(Cmd::Step);
+    spec
+}
+
 fn gen_timer_once(seed: u64, o: &TimerOpts) -> Spec {
     let mut rng = Rng::new(seed);
+    if o.chains && rng.chance(1, 8) {
+        return gen_chain(rng.next(), o);
+    }
     let n = rng.range(1, o.max_nodes as u64) as usize;
     let mut spec = Spec { seed, ttl: rng.range(3, 6) as u8, start: rng.below(2) * 1_000_000_000 + rng.below(3), drv_slots: 4, ..Default::default() };
     spec.sinks.push(SinkSpec::Buffer(4096));
